@@ -144,11 +144,12 @@ def run_real(comments_text, author_is_admin):
     from bert_e import exceptions as ex
     from bert_e.lib.settings_dict import SettingsDict
     admins = ['admin'] + (['contributor'] if author_is_admin else [])
+    class _C(common.HostNames):
+        def __init__(self, author, text=None, comments=None):
+            self.author, self.text, self.comments = author, text, comments
     job = types.SimpleNamespace(
         settings=SettingsDict({}, dict(admins=admins, robot='robot')),
-        pull_request=types.SimpleNamespace(
-            author='contributor',
-            comments=[types.SimpleNamespace(author=r, text=t) for r, t in comments_text]),
+        pull_request=_C('contributor', comments=[_C(r, t) for r, t in comments_text]),
         bert_e=types.SimpleNamespace(client=types.SimpleNamespace(login='robot')))
     job.active_options = []
     try:
